@@ -305,6 +305,12 @@ def run_sim(spec, listeners=(), failpoints=None, device=None, seed_solution=None
     rr.options = options
     avp, tc, eps = build_drive(spec.get("drive", {}), device, options)
     rr.drive = (avp, tc, eps)
+    # the caller's objects are inputs: a dict of terminal currents and the options object are what they were afterwards
+    import copy as _copy
+    import dataclasses as _dc
+
+    tc_before = _copy.deepcopy(tc) if isinstance(tc, dict) else None
+    opt_before = _dc.asdict(options)
     rec = Recorder(listeners, failpoints)
     rr.recorder = rec
     rr.solution = None
@@ -339,6 +345,13 @@ def run_sim(spec, listeners=(), failpoints=None, device=None, seed_solution=None
                 return rr
             rr.exception = exc
     rr.rng_state_after = np.random.get_state()[1][:8].tolist()
+    rr.mutated = []
+    if tc_before is not None and tc != tc_before:
+        rr.mutated.append({"input": "terminal_currents dict", "before": {k: float(v) for k, v in tc_before.items()}, "after": {k: float(v) for k, v in tc.items()}})
+    opt_after = _dc.asdict(options)
+    ch = [k for k in opt_before if opt_before[k] != opt_after.get(k)]
+    if ch:
+        rr.mutated.append({"input": "SolverOptions", "fields": ch, "before": {k: repr(opt_before[k]) for k in ch}, "after": {k: repr(opt_after.get(k)) for k in ch}})
     rr.output_path = getattr(rr.solution, "path", None) or path
     if not keep_dir:
         rr.cleanup = lambda: shutil.rmtree(rr.outdir, ignore_errors=True)
